@@ -43,8 +43,11 @@ enum spki_rtvals {
  * @brief Initializes the spki_table struct.
  * @param[in] spki_table spki_table that will be initialized.
  * @param[in] update_fp Pointer to update function
+ * @return SPKI_SUCCESS On success.
+ * @return SPKI_ERROR If the memory for the hash table could not be allocated.
+ * The table must not be used then, except for passing it to spki_table_free.
  */
-void spki_table_init(struct spki_table *spki_table, spki_update_fp update_fp);
+int spki_table_init(struct spki_table *spki_table, spki_update_fp update_fp);
 
 /**
  * @brief Frees the memory associated with the spki_table.
